@@ -26,12 +26,12 @@ pub mod verif {
 }
 
 use include_logic::FileStack;
-use program_structure::ast::{Version, AST};
+use program_structure::ast::{Definition, Version, AST};
 use program_structure::report::{Report, ReportCollection};
 use program_structure::file_definition::{FileID, FileLibrary};
 use program_structure::program_archive::ProgramArchive;
 use program_structure::template_library::TemplateLibrary;
-use std::collections::HashMap;
+use std::collections::{HashMap, HashSet};
 use std::path::{Path, PathBuf};
 
 /// A result from the Circom parser.
@@ -92,11 +92,13 @@ pub fn parse_files(
         }
         [] => {
             // TODO: Maybe use a flag to ensure that a main component must be present.
+            report_duplicate_definitions(&definitions, &mut reports);
             let template_library = TemplateLibrary::new(definitions, file_library);
             ParseResult::Library(Box::new(template_library), reports)
         }
         _ => {
             reports.push(errors::MultipleMainError::produce_report());
+            report_duplicate_definitions(&definitions, &mut reports);
             let template_library = TemplateLibrary::new(definitions, file_library);
             ParseResult::Library(Box::new(template_library), reports)
         }
@@ -137,6 +139,35 @@ pub fn parse_files(
         }
     }
     result
+}
+
+/// Reports each function or template with the same name as a previous
+/// definition. (Only the first definition is analyzed.)
+fn report_duplicate_definitions(
+    definitions: &HashMap<FileID, Vec<Definition>>,
+    reports: &mut ReportCollection,
+) {
+    let mut file_ids: Vec<_> = definitions.keys().collect();
+    file_ids.sort();
+    let mut names = HashSet::new();
+    for file_id in file_ids {
+        for definition in &definitions[file_id] {
+            if !names.insert(definition.name()) {
+                reports.push(
+                    errors::DuplicateDefinitionError {
+                        name: definition.name(),
+                        file_id: *file_id,
+                        file_location: match definition {
+                            Definition::Template { meta, .. } | Definition::Function { meta, .. } => {
+                                meta.file_location()
+                            }
+                        },
+                    }
+                    .into_report(),
+                );
+            }
+        }
+    }
 }
 
 pub fn parse_file(
